@@ -815,12 +815,18 @@ def model(ir, faults):
                         ev.append([num(stt[2]), WILD, WILD])
                 elif k == "shadowiter":
                     probes.inc("iterator_class_names_rebound_right_before_a_reset")
+                    st["iter_shadowed"] = True
                 elif k == "stopfield":
                     # the first end-of-iteration value an interpreter hands out (since it was created or reset) has no field of the
                     # program's; whether later ones are the same object is not judged
                     ev.append([num(stt[1]), WILD if st.get("stopmark") else cls("AttributeError")])
                     st["stopmark"] = True
                 elif k == "corelib":
+                    if st.get("iter_shadowed"):
+                        # the core library's methods look `MapIter` / `FilterIter` / `StopIter` up in main's globals at call time:
+                        # while the program has them rebound, `.map()` fails. No claimed property says otherwise (11.3, left alone);
+                        # the generator never asks for it, and a shrink candidate that does is not judged
+                        taint.add("core-library-resolves-iterator-classes-in-main")
                     probes.inc("core_library_used")
                     ev.append([num(stt[1]), {"v": [num(2), num(3)]}, {"v": [num(1), num(3)]}, cls("ErrorClass"), num(5),
                                cls("StopIterClass"), cls("RuntimeErrorClass"), num(3)])
